@@ -25,6 +25,22 @@ def attr_pool(fname):
                                                            ("o", "uneval_ir.pool_function2"), ("u", "['a', 'b']")]
 
 
+def is_array_class(q):
+    return q.startswith(("ampform.kinematics.lorentz.", "ampform.kinematics.angles."))
+
+
+def has_array(ir):
+    if ir[0] == "U" and is_array_class(ir[1]):
+        return True
+    return ir[0] in "AU" and any(has_array(a) for a in ir[2])
+
+
+def has_unhashable(ir):
+    if ir[0] == "U" and any(a[0] == "u" for a in ir[3]):
+        return True
+    return ir[0] in "AU" and any(has_unhashable(a) for a in ir[2])
+
+
 class Gen:
     def __init__(self, seed, helpers=False):
         self.r = random.Random(seed)
@@ -50,14 +66,22 @@ class Gen:
         q = cls or r.choice(self.names)
         c = self.dec[q]
         args = []
+        arr = is_array_class(q)
         for f in U.sym_fields(c):
+            if f.name == "l":
+                # SphericalHankel1: a numeric l makes SymPy's Sum.doit() evaluate the series (not modelled)
+                args.append(("Y", "Symbol('L')"))
+                continue
+            if f.name == "angular_momentum":
+                args.append(r.choice([("N", 0, 1), ("N", 1, 1), ("N", 2, 1), ("Y", "Symbol('L')")]))
+                continue
             if depth > 1 and r.random() < 0.45:
-                args.append(self.inst(depth - 1))
+                # arrays nest in arrays, scalars in scalars (SymPy evaluates ill-typed garbage inconsistently)
+                args.append(self.inst(depth - 1, r.choice([n for n in self.names if is_array_class(n) == arr])))
+            elif arr:
+                args.append(("Y", r.choice(["Symbol('p')", "Symbol('k')", "Symbol('b')"])))
             else:
-                if f.name in ("angular_momentum", "l") and r.random() < 0.7:
-                    args.append(r.choice([("N", 0, 1), ("N", 1, 1), ("N", 2, 1), ("Y", "Symbol('L')")]))
-                else:
-                    args.append(self.leaf())
+                args.append(self.leaf())
         attrs = [r.choice(attr_pool(f.name)) for f in U.attr_fields(c)]
         return ("U", q, args, attrs)
 
@@ -113,6 +137,8 @@ class Gen:
         subs = self.subtrees(ir)
         syms = sorted({t[1] for t in subs if t[0] == "Y"})
         kind = r.choice(["sym2sym", "sym2num", "sym2expr", "sub2sym", "attr", "sym2sym", "sym2num"])
+        if has_array(ir) and kind in ("sym2num", "sym2expr"):
+            kind = "sym2sym"
         er, ar = [], []
         if kind in ("sym2sym", "sym2num", "sym2expr") and syms:
             for k in r.sample(syms, min(len(syms), r.choice([1, 1, 2]))):
@@ -124,10 +150,16 @@ class Gen:
                     v = r.choice([("A", "sympy.core.power.Pow", [("Y", "Symbol('t')"), ("N", 2, 1)]),
                                   ("A", "sympy.functions.elementary.trigonometric.cos", [("Y", "Symbol('t')")]),
                                   self.inst(1)])
+                if "," in k:
+                    # the image must satisfy the assumptions of the symbol it replaces (SymPy has already used
+                    # them, e.g. to decide `s < 0` in a Piecewise): same-assumption symbol or positive number
+                    v = ("Y", k.replace("Symbol('", "Symbol('t_", 1)) if kind != "sym2num" or has_array(ir) \
+                        else ("N", *r.choice([(2, 1), (3, 2), (5, 1), (7, 4)]))
                 er.append((("Y", k), v))
         elif kind == "sub2sym":
             cand = [t for t in subs[1:] if t[0] == "U"] or [t for t in subs if t[0] == "Y"]
-            er.append((r.choice(cand), ("Y", "Symbol('t')")))
+            if cand:
+                er.append((r.choice(cand), ("Y", "Symbol('t')")))
         else:
             ats = [a for a in self.attrs_in(ir) if a[0] != "u"]
             if ats:
@@ -174,7 +206,52 @@ def default_instances():
     from ampform.sympy.math import ComplexSqrt
 
     x, i = sp.symbols("x i")
-    p = ArraySymbol("p", shape=(3, 4))
+    from ampform.kinematics.lorentz import FourMomentumSymbol
+
+    p = FourMomentumSymbol("p", shape=[])   # shape-less, like the momenta of a formulated model
     out += [PoolSum(x ** i, (i, (1, 2, 3))), ComplexSqrt(x), ArraySum(p, p), ArrayAxisSum(p, 0),
             ArrayMultiplication(p, p), MatrixMultiplication(p, p), ArraySlice(p, (slice(None), 0))]
     return out
+
+
+# ---------------------------------------------------------------- size of the model's doit() result
+def model_doit_size(ir, tab):
+    """Number of nodes of Uneval.doitF's result (computed from the templates without building the
+    tree: the free-constructor model can be exponentially larger than SymPy's simplified result)."""
+    info = {c["name"]: c for c in tab}
+
+    def F(q, sizes, attrs):
+        ci = info[q]
+        if not ci["doit"]:
+            return 1 + sum(sizes)
+        return max(Dt(t, sizes, attrs) for _, t in ci["templates"])
+
+    def Dt(t, sizes, attrs):
+        k = t[0]
+        if k == "H":
+            return sizes[t[1]] if t[1] < len(sizes) else 1
+        if k in "YN":
+            return 1
+        if k == "A":
+            return 1 + sum(Dt(a, sizes, attrs) for a in t[2])
+        if k == "U":
+            sub_attrs = [attrs[a[1]] if a[0] == "field" and a[1] < len(attrs) else a[1] for a in t[3]]
+            return F(t[1], [Dt(a, sizes, attrs) for a in t[2]], sub_attrs)
+        if k == "C":
+            a = attrs[t[1]] if t[1] < len(attrs) else ("n",)
+            ss = [Dt(x, sizes, attrs) for x in t[2]]
+            if a[0] == "c" and a[1] in info:
+                ci = info[a[1]]
+                nsym = sum(f["sympify"] for f in ci["fields"])
+                return F(a[1], ss + [1] * (nsym - len(ss)), [("n",)] * 4)
+            return 1 + sum(ss)
+        return 1
+
+    def D(e):
+        if e[0] in "YN":
+            return 1
+        if e[0] == "A":
+            return 1 + sum(D(a) for a in e[2])
+        return F(e[1], [D(a) for a in e[2]], e[3])
+
+    return D(ir)
